@@ -1,0 +1,9 @@
+//go:build verif
+
+package wlru
+
+// Machine-checked contracts for /verif (read as text by the VC generator; no code).
+//
+// The wrappers of this package have no contracts of their own: they are executed in place wherever a function under
+// contract calls them. Lock discipline (C28): the wrapped cache may only be reached with the wrapper's lock held.
+//@ guarded Cache.lru by lock
